@@ -1,5 +1,6 @@
 """C33 — grid-manager certificates grant permission only when valid (grid_manager.py)."""
 import io
+import os
 import json
 from datetime import datetime, timedelta, timezone
 
@@ -7,7 +8,7 @@ ID = "C33"
 LEAN_PROPS = "Tahoe.Props.C33"
 DRIVER = "C33"
 GENERATED = []
-SOURCES = ["src/allmydata/grid_manager.py", "src/allmydata/crypto/ed25519.py"]
+SOURCES = ["src/allmydata/grid_manager.py", "src/allmydata/crypto/ed25519.py", "src/allmydata/storage_client.py"]
 DESIGN_REF = "DESIGN.md §2 C33"
 TECHNIQUE = ("Lean 4 theorems over an executable model of create_grid_manager_verifier / validate_grid_manager_certificate "
              "with symbolic Ed25519; differential correspondence on real Ed25519 keys and certificates, signatures mapped to "
@@ -18,15 +19,22 @@ LEVEL_TEXT = ("permitted_iff / granted_only_if / tampered_or_foreign_never_grant
               "(including the instant of expiry and one microsecond around it).")
 LEVEL_NOTE = ("Lean kernel + standard axioms; Ed25519 unforgeability is an explicit hypothesis (symbolic instance given); "
               "json/datetime parsing abstracted as a classifier computed by the harness.")
-RULE = ("seeded (key set, certificate list, server, times) tuples against allmydata.grid_manager.create_grid_manager_verifier; "
+RULE = ("(1) seeded (key set, certificate list, server, times) tuples against allmydata.grid_manager.create_grid_manager_verifier; "
         "a case is one call of the returned predicate; distinct = distinct (symbolic verifier line, time); non-trivial = at "
-        "least one key configured and at least one certificate present")
+        "least one key configured and at least one certificate present.  (2) seeded HISTORIES on a long-lived real StorageFarmBroker "
+        "(grid-manager keys from tahoe.cfg text; servers announced with certificate sets valid-1h / valid-2h / expired+valid / expired / "
+        "none / wrong key / other server's / tampered) driven through a virtual clock patched into "
+        "allmydata.grid_manager.current_datetime_with_zone: at expiry-1us, expiry, expiry+1us and later instants "
+        "get_servers_for_psi(for_upload=True/False) and IServer.upload_permitted() are called repeatedly, with identical and renewed "
+        "re-announcements in between; the model's permitted(t) is a pure function of (certificates, keys, t) and the broker's offered "
+        "set must be extensionally equal to it at every instant regardless of the call history; a case is one (query, server) pair")
 TRUSTED = ["lean/Tahoe/GridManager/Model.lean is a hand transcription of create_grid_manager_verifier / validate_grid_manager_certificate",
            "harness classify(): json.loads / datetime.fromisoformat / str.encode('ascii') outcomes are computed with the same library calls the code uses",
            "mapping of real Ed25519 signatures to symbolic ids (checked on every (key, cert) pair against ed25519.verify_signature)"]
 ASSUMPTIONS = ["Ed25519: verification succeeds only for a signature produced with the matching private key on exactly those bytes (sampled on every pair of every case)",
                "the grid manager (trust root) signs only well-formed certificates (object with timezone-aware ISO-8601 'expires' and ASCII 'public_key'); "
                "for a correctly signed malformed certificate the code raises (json/KeyError/TypeError/...) — modelled and compared, and the monitor then demands only soundness (never True without a valid certificate)",
+               "broker histories: servers enter through StorageFarmBroker._got_announcement with a stand-in Tub (connectTo returns an inert reconnector; no real Tub can be created in this sandbox) and are marked connected the way test_add_rref does; the only clock the code reads on this path is allmydata.grid_manager.current_datetime_with_zone",
                "now_fn returns a timezone-aware datetime (a naive one makes the comparison raise TypeError; modelled and compared)"]
 
 EPOCH = datetime(1970, 1, 1, tzinfo=timezone.utc)
@@ -372,24 +380,288 @@ def server_strings(rng):
     return [ed25519.string_from_verifying_key(pk) for (_, pk) in _keys([rng.randbytes(32).hex() for _ in range(N_SRV)])]
 
 
+# ----------------------------------------------------------------------------- (2) histories on a long-lived StorageFarmBroker
+
+FURL = "pb://62ubehyunnyhzs7r6vdonnm2hpi52w6y@127.0.0.1:1/x"
+CLOCK = [None]
+H = 3600 * 10**6
+TEMPLATES = ["valid-1h", "valid-2h", "expired+valid", "expired", "none", "wrong-key", "other-server", "tampered", "valid-short", "two-valid"]
+
+
+def _b32(b):
+    import base64
+    return base64.b32encode(b).decode("ascii").lower().rstrip("=")
+
+
+def certset(rng, template, i, n, keys, t0):
+    """cert specs {k, gm, for, exp}; k in valid | tampered"""
+    g = lambda: rng.choice(keys) if keys else rng.randrange(N_GM)
+    foreign = [x for x in range(N_GM) if x not in keys] or [0]
+    short = t0 + rng.choice([1, 2, 1000, 10**6])
+    if template == "valid-1h":
+        return [{"k": "valid", "gm": g(), "for": i, "exp": t0 + H}]
+    if template == "valid-2h":
+        return [{"k": "valid", "gm": g(), "for": i, "exp": t0 + 2 * H}]
+    if template == "expired+valid":
+        return [{"k": "valid", "gm": g(), "for": i, "exp": t0 - rng.choice([1, H, 400 * 24 * H])}, {"k": "valid", "gm": g(), "for": i, "exp": t0 + H}]
+    if template == "expired":
+        return [{"k": "valid", "gm": g(), "for": i, "exp": t0 - rng.choice([0, 1, H])}]
+    if template == "none":
+        return []
+    if template == "wrong-key":
+        return [{"k": "valid", "gm": rng.choice(foreign), "for": i, "exp": t0 + H}]
+    if template == "other-server":
+        return [{"k": "valid", "gm": g(), "for": (i + 1 + rng.randrange(max(n - 1, 1))) % n if n > 1 else i, "exp": t0 + H}]
+    if template == "tampered":
+        return [{"k": "tampered", "gm": g(), "for": i, "exp": t0 + rng.choice([H, 2 * H])}]
+    if template == "valid-short":
+        return [{"k": "valid", "gm": g(), "for": i, "exp": short}]
+    return [{"k": "valid", "gm": g(), "for": i, "exp": short}, {"k": "valid", "gm": g(), "for": i, "exp": short + rng.choice([1, 5, H])}]
+
+
+def gen_history(rng, fixed=None):
+    n = fixed["n"] if fixed else rng.choice([2, 3, 4, 6, 8])
+    keys = rng.sample(range(N_GM), rng.choice([1, 1, 2])) if (fixed or rng.random() < 0.9) else []
+    t0 = BASE_US
+    templ = fixed["templates"] if fixed else [rng.choice(TEMPLATES) for _ in range(n)]
+    versions = [[certset(rng, templ[i], i, n, keys, t0)] for i in range(n)]
+    exps = sorted(set(c["exp"] for v in versions for c in v[0] if c["exp"] > t0))
+    instants = {t0}
+    for e in (exps if fixed else rng.sample(exps, min(len(exps), 3))):
+        for d in ([-1, 0, 1, 1000] if fixed else rng.sample([-1, 0, 1, 7, 10**6], rng.choice([2, 3, 4]))):
+            if e + d >= t0:
+                instants.add(e + d)
+    if exps:
+        instants.add(max(exps) + rng.choice([1, 24 * H]))
+    events = []
+    for t in sorted(instants):
+        events.append(["t", t])
+        for _ in range(rng.choice([2, 3])):
+            events.append(["q", rng.choice([1, 1, 0]), rng.randbytes(16).hex()])
+        if rng.random() < 0.5:
+            events.append(["p", rng.randrange(n)])
+        if rng.random() < 0.4:
+            i = rng.randrange(n)
+            c = rng.random()
+            if c < 0.4:
+                events.append(["ann", i, len(versions[i]) - 1])           # identical re-announcement (ignored by the broker)
+            else:
+                if c < 0.75:
+                    new = [{"k": "valid", "gm": rng.choice(keys) if keys else 0, "for": i, "exp": t + rng.choice([1, 2, H])}]   # renewed
+                else:
+                    new = certset(rng, rng.choice(TEMPLATES), i, n, keys, t)
+                versions[i].append(new)
+                events.append(["ann", i, len(versions[i]) - 1])
+                for e in [c2["exp"] for c2 in new if c2["exp"] > t and c2["exp"] - t <= 5]:
+                    pass
+            for _ in range(rng.choice([1, 2])):
+                events.append(["q", 1, rng.randbytes(16).hex()])
+    # instants created by renewals: walk across their expiry too
+    tmax = max(instants)
+    late = sorted(set(c["exp"] + d for v in versions for cs in v[1:] for c in cs for d in (-1, 0, 1) if c["exp"] + d > tmax))
+    for t in late[:6]:
+        events.append(["t", t])
+        events.append(["q", 1, rng.randbytes(16).hex()])
+        events.append(["q", rng.choice([0, 1]), rng.randbytes(16).hex()])
+    # [client] peers.preferred: being preferred must not exempt a server from the certificate requirement
+    preferred = rng.sample(range(n), rng.choice([0, 1, 2, min(3, n)])) if rng.random() < 0.6 else []
+    return {"kind": "broker", "preferred": preferred, "gm_seeds": [rng.randbytes(32).hex() for _ in range(N_GM)], "keys": keys,
+            "srv_seeds": [rng.randbytes(32).hex() for _ in range(n)], "versions": versions, "events": events}
+
+
+def cert_dicts(case, gms, srv_strings, i, v):
+    """the certificate list of server i, version v, in the format of run_case (bytes + construction metadata)"""
+    from allmydata.crypto import ed25519
+    res = []
+    for c in case["versions"][i][v]:
+        def body(exp):
+            return json.dumps({"expires": iso(exp, 0), "public_key": srv_strings[c["for"]].decode("ascii"), "version": 1},
+                              separators=(",", ":"), sort_keys=True).encode("utf-8")
+        b = body(c["exp"])
+        meta = {"kind": "valid", "signer": c["gm"], "intact": True, "server": c["for"], "exp": c["exp"], "wellformed": True}
+        if c["k"] == "tampered":
+            orig = body(c["exp"] - 400 * 24 * H)           # an old certificate, its expiry date rewritten under the old signature
+            sig = ed25519.sign_data(gms[c["gm"]][0], orig)
+            meta.update(kind="tamper-field", intact=False, sig_of=orig.hex())
+        else:
+            sig = ed25519.sign_data(gms[c["gm"]][0], b)
+        res.append({"certificate": b.hex(), "signature": sig.hex(), "meta": meta})
+    return res
+
+
+def run_history(ctx, case, workdir, lines_b, impl_b, cases_b, direct):
+    import contextlib
+    import io
+    from twisted.application import service
+    from allmydata.crypto import ed25519
+    from allmydata.node import config_from_string
+    from allmydata.client import _valid_config
+    from allmydata.storage_client import StorageClientConfig, StorageFarmBroker
+
+    class Reconnector:
+        def stopConnecting(self):
+            pass
+
+        def reset(self):
+            pass
+
+    class StandInTub(service.MultiService):
+        def connectTo(self, furl, cb):
+            return Reconnector()
+
+    gms = _keys(case["gm_seeds"])
+    keys = case["keys"]
+    srv_strings = [ed25519.string_from_verifying_key(pk) for (_, pk) in _keys(case["srv_seeds"])]
+    sids = [s[len(b"pub-"):] for s in srv_strings]
+    n = len(sids)
+    txt = "[client]\n"
+    if case.get("preferred"):
+        txt += "peers.preferred = %s\n" % ", ".join(sids[i].decode("ascii") for i in case["preferred"])
+    if keys:
+        txt += "[grid_managers]\n" + "".join("gm%d = %s\n" % (g, ed25519.string_from_verifying_key(gms[g][1]).decode("ascii")) for g in keys)
+    cfg = config_from_string(os.path.join(workdir, "no-such-basedir"), "tub.port", txt, _valid_config())
+    sb = StorageFarmBroker(True, lambda overrides: StandInTub(), cfg, StorageClientConfig.from_node_config(cfg))
+    certs = {}
+
+    def announce(i, v, serial):
+        cs = certs.setdefault((i, v), cert_dicts(case, gms, srv_strings, i, v))
+        ann = {"service-name": "storage", "anonymous-storage-FURL": FURL, "nickname": "srv%d-v%d" % (i, v)}
+        if cs:
+            ann["grid-manager-certificates"] = [{"certificate": bytes.fromhex(c["certificate"]).decode("utf-8"),
+                                                 "signature": _b32(bytes.fromhex(c["signature"]))} for c in cs]
+        with contextlib.redirect_stdout(io.StringIO()):
+            sb._got_announcement(sids[i], ann)
+        srv = sb.servers[sids[i]]
+        srv._rref = object()            # as StorageFarmBroker.test_add_rref does
+        srv._is_connected = True
+        return srv
+
+    def permitted(i, v, t):
+        return (not keys) or any(c["meta"]["intact"] and c["meta"]["signer"] in keys and c["meta"]["server"] == i and c["meta"]["exp"] > t
+                                 for c in certs[(i, v)])
+
+    CLOCK[0] = dt_of("a%d" % BASE_US)
+    cur = [0] * n
+    since = [BASE_US] * n          # when the current server object was created
+    for i in range(n):
+        announce(i, 0, 0)
+    obs = {}
+    t = BASE_US
+    for ei, ev in enumerate(case["events"]):
+        if ev[0] == "t":
+            t = ev[1]
+            CLOCK[0] = dt_of("a%d" % t)
+            at_exp = any(c["meta"]["exp"] == t for i in range(n) for c in certs[(i, cur[i])])
+            ctx.count("broker-clock:" + ("at-an-expiry-instant" if at_exp else "other"))
+        elif ev[0] == "ann":
+            i, v = ev[1], ev[2]
+            old = sb.servers[sids[i]]
+            new = announce(i, v, ei)
+            ctx.count("broker-reannounce:" + ("identical-ignored" if new is old else "replaced"))
+            if new is not old:
+                cur[i], since[i] = v, t
+        elif ev[0] == "p":
+            i = ev[1]
+            got, want = sb.servers[sids[i]].upload_permitted(), permitted(i, cur[i], t)
+            if got is not want:
+                ctx.violation("IServer.upload_permitted() = %r differs from the documented predicate at the current time" % (got,),
+                              dict(case, at={"event": ei, "t": t, "server": i}), "upload-permitted-wrong:" + ("granted" if got else "denied"))
+        else:
+            fu = bool(ev[1])
+            offered = set(sids.index(s.get_serverid()) for s in sb.get_servers_for_psi(bytes.fromhex(ev[2]), for_upload=fu))
+            ctx.count("broker-query:for_upload=%d" % fu)
+            for i in range(n):
+                v = cur[i]
+                if not fu:
+                    if i not in offered:
+                        ctx.violation("a connected server is missing from get_servers_for_psi(for_upload=False)",
+                                      dict(case, at={"event": ei, "t": t, "server": i}), "connected-server-missing-without-for-upload")
+                    continue
+                want = permitted(i, v, t)
+                obs.setdefault((i, v), []).append((t, i in offered))
+                ctx.case(("broker", ei, i, json.dumps(case["versions"][i][v]), t - BASE_US))
+                ctx.count("broker-want:" + ("offered" if want else "withheld"))
+                if (i in offered) and not want:
+                    kinds = sorted(set(("expired" if (c["meta"]["kind"] == "valid" and c["meta"]["signer"] in keys and c["meta"]["server"] == i) else
+                                        "wrong-key" if (c["meta"]["kind"] == "valid" and c["meta"]["server"] == i) else
+                                        "other-server" if c["meta"]["kind"] == "valid" else "tampered") for c in certs[(i, v)])) or ["none"]
+                    sig = "at-or-after-expiry" if permitted(i, v, since[i]) else "never-valid:" + "+".join(kinds)
+                    if i in case.get("preferred", []):
+                        sig += ":preferred-server"
+                    ctx.violation("server offered for upload without a currently valid grid-manager certificate (%d us after its last "
+                                  "certificate for this server expired or never valid; server object in use since T0+%dus, now T0+%dus)"
+                                  % (t - max([c["meta"]["exp"] for c in certs[(i, v)] if c["meta"]["intact"] and c["meta"]["signer"] in keys
+                                              and c["meta"]["server"] == i] or [t]), since[i] - BASE_US, t - BASE_US),
+                                  dict(case, at={"event": ei, "t": t, "server": i}), "offered-for-upload-without-valid-cert:" + sig)
+                elif (i not in offered) and want:
+                    ctx.violation("server holding a currently valid grid-manager certificate is not offered for upload",
+                                  dict(case, at={"event": ei, "t": t, "server": i}), "valid-cert-not-offered-for-upload")
+    # the same (certificates, keys, instants) through the direct verifier and the Lean model: the broker must equal both
+    for (i, v), ol in sorted(obs.items()):
+        dcase = {"gm_seeds": case["gm_seeds"], "keys": keys, "me": i, "certs": certs[(i, v)], "times": ["a%d" % tt for (tt, _) in ol],
+                 "srv_strings": [s.decode("ascii") for s in srv_strings]}
+        out, line, res = run_case(ctx, dcase, srv_strings)
+        monitor(ctx, dcase, res)
+        direct.append((dcase, line, out))
+        lines_b.append(line)
+        impl_b.append(",".join("T" if o else "F" for (_, o) in ol))
+        cases_b.append(dict(case, at={"server": i, "version": v}))
+
+
+def history_corpus():
+    """one server per documented certificate situation, every expiry walked (expiry-1us, expiry, +1us, +1ms)"""
+    import random
+    return [gen_history(random.Random("C33-corpus-%d" % k), fixed={"n": 8, "templates": ["valid-1h", "valid-2h", "expired+valid", "expired", "none",
+                                                                                          "wrong-key", "other-server", "tampered"]})
+            for k in range(2)]
+
+
 CORPUS_KINDS = 40
 
 
 def run(ctx):
+    import allmydata.grid_manager as gm_mod
     srv_rng = ctx.subrng("servers")
     srv_strings = server_strings(srv_rng)
+    histories = []
     if ctx.replay:
         case = dict(ctx.replay["case"])
         case.pop("at", None)
-        srv_strings = [s.encode("ascii") for s in case.get("srv_strings", [x.decode() for x in srv_strings])]
-        cases = [case]
+        if case.get("kind") == "broker":
+            histories, cases = [case], []
+        else:
+            srv_strings = [s.encode("ascii") for s in case.get("srv_strings", [x.decode() for x in srv_strings])]
+            cases = [case]
     else:
-        n = ctx.budget(700, 25000)
+        n = ctx.budget(600, 25000)
         cases = []
         for _ in range(n):
             c = gen_case(ctx.rng, srv_strings)
             c["srv_strings"] = [s.decode("ascii") for s in srv_strings]
             cases.append(c)
+        hrng = ctx.subrng("histories")
+        histories = history_corpus() + [gen_history(hrng) for _ in range(ctx.budget(150, 2500))]
+    # (2) broker histories on the virtual clock
+    lines_b, impl_b, cases_b, direct = [], [], [], []
+    workdir = os.path.join(os.path.dirname(os.path.dirname(os.path.dirname(os.path.abspath(__file__)))), ".work")
+    real_clock = gm_mod.current_datetime_with_zone
+    gm_mod.current_datetime_with_zone = lambda: CLOCK[0]
+    try:
+        for h in histories:
+            run_history(ctx, h, workdir, lines_b, impl_b, cases_b, direct)
+    finally:
+        gm_mod.current_datetime_with_zone = real_clock
+    model_b = ctx.model(lines_b)
+    if model_b is not None:
+        model_b = [m.split(";", 2)[2] if m.count(";") >= 2 else m for m in model_b]
+    ctx.compare("StorageFarmBroker.get_servers_for_psi(for_upload=True) membership over a history vs permitted(t) of the model", cases_b, impl_b, model_b)
+    model_d = ctx.model([d[1] for d in direct])
+    ctx.compare("create_grid_manager_verifier on the certificate sets and instants of the broker histories",
+                [d[0] for d in direct], [d[2] for d in direct], model_d)
+    if lines_b:
+        ctx.sample({"broker-line": lines_b[0][:400], "offered": impl_b[0]})
+    if not cases:
+        return
     impl, lines = [], []
     for case in cases:
         out, line, res = run_case(ctx, case, srv_strings)
